@@ -641,7 +641,7 @@ class HierarchyElement(DiagLayer):
             # bus is not CAN
             return None
 
-        val = com_param.value
+        val = com_param.get_value()
         if not isinstance(val, str):
             return None
 
@@ -675,7 +675,7 @@ class HierarchyElement(DiagLayer):
         if com_param is None:
             return False
 
-        return "CANFD" in com_param.value
+        return "CANFD" in com_param.get_value()
 
     def get_can_baudrate(self, protocol: Optional[Union[str, "Protocol"]] = None) -> Optional[int]:
         """Baudrate of the CAN bus which is used by the ECU [bits/s]
@@ -688,7 +688,7 @@ class HierarchyElement(DiagLayer):
         if com_param is None:
             return None
 
-        val = com_param.value
+        val = com_param.get_value()
         if not isinstance(val, str):
             return None
 
@@ -708,7 +708,7 @@ class HierarchyElement(DiagLayer):
         if com_param is None:
             return None
 
-        val = com_param.value
+        val = com_param.get_value()
         if not isinstance(val, str):
             return None
 
